@@ -86,7 +86,8 @@ def team_dir(variant):
             with open(os.path.join(t, "jvm.options"), "w") as f:
                 f.write("-Xmx{{heap|default('default-heap')}}\n")
             with open(os.path.join(t, "sub", "deep.txt"), "w") as f:
-                f.write("deep a={{a}}\n")
+                # no newline at the end of the template: what base B appends must still start on a line of its own
+                f.write("deep a={{a}}")
             # same file name at two levels of one config base
             with open(os.path.join(t, "sub", "jvm.options"), "w") as f:
                 f.write("# sub-level options\n-Xms{{heap|default('sub-heap')}}\n")
